@@ -210,7 +210,13 @@ class Heap:
                     continue
                 cv = self.__dict__.setdefault('class_vars', {})
                 if (c, nm) not in cv:
-                    if isinstance(node, ast.Constant):
+                    if isinstance(node, ast.Call) and norm(node.func) == 're.compile' and node.args:
+                        home = self.module._home(c) if hasattr(self.module, '_home') else self.module
+                        try:
+                            cv[(c, nm)] = ('regex', '%s.%s' % (c, nm), home.fold(node.args[0], c), home.fold(node.args[1], c) if len(node.args) > 1 else 0)
+                        except Exception:      # pylint: disable=broad-except
+                            raise AnalysisError('heap model: regex %s.%s does not fold' % (c, nm))
+                    elif isinstance(node, ast.Constant):
                         cv[(c, nm)] = node.value
                     elif isinstance(node, ast.Call) and norm(node.func) in ('set', 'frozenset') and not node.args:
                         cv[(c, nm)] = set()
@@ -780,7 +786,7 @@ class Interp:
                 raise AnalysisError('heap model: attribute name is not decided: %s' % norm(e)[:60])
             o_ = h.objs[args[0].name]
             if fn.id == 'setattr' and len(args) == 3:
-                h.setattr(args[0], nm_, args[2], None)
+                self.store_attr(args[0], nm_, args[2], None)
                 return None
             if fn.id == 'hasattr':
                 if ('.' + nm_) in h.hooks:
@@ -898,6 +904,10 @@ class Interp:
                 b_ = None
             if isinstance(b_, (_re.Match, _re.Pattern)) and all(isinstance(a, (str, int, bytes)) or a is None for a in args):
                 r_ = getattr(b_, fn.attr)(*args, **kwargs)
+                if isinstance(r_, dict):          # groupdict(): a fresh dictionary of the model
+                    d_ = h.new_dict()
+                    h.objs[d_.name]['entries'].extend(r_.items())
+                    return d_
                 return h.new_list(r_) if isinstance(r_, list) else r_
             if isinstance(b_, tuple) and b_ and b_[0] == 'regex' and all(isinstance(a, (str, int)) for a in args) and fn.attr in ('match', 'search', 'fullmatch', 'sub', 'split', 'findall'):
                 r_ = getattr(_re.compile(b_[2], b_[3]), fn.attr)(*args, **kwargs)
@@ -1018,6 +1028,16 @@ class Interp:
                 return h.new_list(r)
             return r
         raise AnalysisError('heap model: call %s' % norm(e)[:60])
+
+    def store_attr(self, ref, attr, value, cls):
+        """obj.attr = value: through the class's own __setattr__ when it defines one (heap.intercept_setattr), else the plain store"""
+        h = self.h
+        if getattr(h, 'intercept_setattr', False) and isinstance(ref, Ref) and h.objs[ref.name]['__class__'] in h.module.classes:
+            fn = h.module.method(h.objs[ref.name]['__class__'], '__setattr__')
+            if fn is not None:
+                self.call(Closure(fn.node, {}, ref, fn.cls), [h.fld(attr, cls), value])
+                return
+        h.setattr(ref, attr, value, cls)
 
     def call_value(self, f, args, e):
         """call an evaluated callable (default factories): the builtin container types and closures"""
@@ -1285,6 +1305,14 @@ class Interp:
                                 kw_ = {k_.arg: self.ev(k_.value, env, cls) for k_ in st.value.keywords if k_.arg}
                                 self.call(Closure(fn_.node, {}, me, fn_.cls), args_, kw_)
                                 break
+                        else:
+                            if st.value.func.attr == '__setattr__' and len(st.value.args) == 2:
+                                # object.__setattr__: the plain store
+                                a_, v_ = [self.ev(x_, env, cls) for x_ in st.value.args]
+                                a_ = a_.concrete() if isinstance(a_, SStr) else a_
+                                if not isinstance(a_, str):
+                                    raise AnalysisError('heap model: attribute name is not decided: %s' % norm(st.value)[:60])
+                                h.setattr(me, a_, v_, None)
                 return None
             self.ev(st.value, env, cls)
             return None
@@ -1308,6 +1336,9 @@ class Interp:
             if isinstance(st.op, ast.Add) and isinstance(cur, (str, SStr)) and isinstance(d, (str, SStr)):
                 self.assign(st.target, symstr.lift(cur) + symstr.lift(d) if (isinstance(cur, SStr) or isinstance(d, SStr)) else cur + d, env, cls)
                 return None
+            if isinstance(st.op, ast.Add) and ((isinstance(cur, (str, SStr)) and (d is None or (isinstance(d, int) and not isinstance(d, bool))))
+                                               or (isinstance(d, (str, SStr)) and (cur is None or (isinstance(cur, int) and not isinstance(cur, bool))))):
+                raise Raised('TypeError', h.version, st.lineno)        # text + None / text + number
             if not (isinstance(cur, int) and isinstance(d, int) and isinstance(st.op, (ast.Add, ast.Sub))):
                 raise AnalysisError('heap model: augmented assignment %s' % norm(st))
             self.assign(st.target, cur + d if isinstance(st.op, ast.Add) else cur - d, env, cls)
@@ -1415,7 +1446,7 @@ class Interp:
         if isinstance(t, ast.Name):
             env[t.id] = value
         elif isinstance(t, ast.Attribute):
-            h.setattr(self.ev(t.value, env, cls), t.attr, value, cls)
+            self.store_attr(self.ev(t.value, env, cls), t.attr, value, cls)
         elif isinstance(t, ast.Subscript):
             base = self.ev(t.value, env, cls)
             if isinstance(base, Ref) and h.objs[base.name]['__class__'] == 'dict':
